@@ -124,26 +124,40 @@ def _make_short_name_mapper():
     return renamer
 
 
-def _make_unique_name_mapper(renamer):
+class _UniqueNameMapper:
     """Wraps a renamer so that distinct ONNX names are never given the same python name:
-    when the proposed name is already taken by another ONNX name, a numeric suffix is added."""
-    assigned: dict[str, str] = {}
-    used: set[str] = set()
+    when the proposed name is already taken by another ONNX name, a numeric suffix is added.
+    Names that are not ONNX names (the placeholders printed for omitted node outputs) are drawn
+    from the same pool with :meth:`reserve`."""
 
-    def unique_renamer(name):
-        if name in assigned:
-            return assigned[name]
-        proposed = renamer(name)
+    def __init__(self, renamer) -> None:
+        self._renamer = renamer
+        self._assigned: dict[str, str] = {}
+        self._used: set[str] = set()
+
+    def _fresh(self, proposed: str) -> str:
         new_name = proposed
         counter = 0
-        while new_name in used:
+        while new_name in self._used:
             new_name = f"{proposed}_{counter}"
             counter += 1
-        used.add(new_name)
-        assigned[name] = new_name
+        self._used.add(new_name)
         return new_name
 
-    return unique_renamer
+    def __call__(self, name: str) -> str:
+        if name in self._assigned:
+            return self._assigned[name]
+        new_name = self._fresh(self._renamer(name))
+        self._assigned[name] = new_name
+        return new_name
+
+    def reserve(self, proposed: str) -> str:
+        """Returns a python name (the proposed one if it is free) that no ONNX name is or will be given."""
+        return self._fresh(proposed)
+
+
+def _make_unique_name_mapper(renamer) -> _UniqueNameMapper:
+    return _UniqueNameMapper(renamer)
 
 
 def _translate_type(onnx_type):
@@ -309,9 +323,10 @@ class _Exporter:
             rename_function = _make_short_name_mapper()
         else:
             rename_function = _cleanup_variable_name
-        self._rename_variable = self._handle_attrname_conflict(
-            _make_unique_name_mapper(rename_function)
-        )
+        self._unique_renamer = _make_unique_name_mapper(rename_function)
+        self._rename_variable = self._handle_attrname_conflict(self._unique_renamer)
+        # Names printed for omitted node outputs, by output index: never the name of a value.
+        self._placeholders: dict[int, str] = {}
         self.inline_const = inline_const
         self.constants: dict[str, str] = {}
         self._attr_renaming: dict[str, str | None] = {}  # For current function.
@@ -683,7 +698,9 @@ class _Exporter:
         output_names: list[Any] = []
         for i, o in enumerate(node.output):
             if o in ("", None):
-                output_names.append(f"_{i}")
+                if i not in self._placeholders:
+                    self._placeholders[i] = self._unique_renamer.reserve(f"_{i}")
+                output_names.append(self._placeholders[i])
             else:
                 output_names.append(self._translate_onnx_var(o))
 
